@@ -131,6 +131,20 @@ def observe(w, out, where, full=True):
     if not set(gs) <= upper:
         out.fail(("graphs", "lists-removed-or-unknown-graph"), f"{where}: graphs()={gs} but existing={upper}")
         return False
+    # 3b. graphs(triple): exactly the graphs that hold the triple (a present one and an absent one)
+    if w.cfg != "cg":
+        present = sorted(exp, key=repr)[:1]
+        probes = [(w.S[0], w.P[0], w.O[0])] + [next(t for t in ds.quads() if (tkey(t[:3]), nkey(w.name_of(t[3]))) == present[0])[:3]] if present else [(w.S[0], w.P[0], w.O[0])]
+        for t3 in probes:
+            tk3 = tkey(t3)
+            want_g = {n for n, st_ in model.items() if tk3 in st_}
+            got_g = sut(lambda: [nkey(w.name_of(g.identifier)) for g in ds.graphs(t3)])
+            if is_err(got_g):
+                out.fail(("graphs(triple)-raises", got_g.kind, got_g.site), f"{where}: {got_g!r}")
+                return False
+            if set(got_g) != want_g or len(got_g) != len(set(got_g)):
+                out.fail(("graphs(triple)", "extra" if set(got_g) - want_g else "missing"), f"{where}: graphs({t3}) = {got_g}, held by {want_g}")
+                return False
     # per-name observations
     allnames = list(w.names) + w.extra_names + [GU]
     others_nonempty = any(model.values())
